@@ -102,7 +102,7 @@ def group_under_net(draw):
         inside = draw(st.sampled_from([True, True, True, True, False]))
         mb = (base | (draw(st.integers(0, R.ALL1)) & w)) if inside else (base ^ (1 << draw(st.integers(32 - plen, 31))))
         mem.append([mb & ~mw & R.ALL1, mw])
-    if draw(st.sampled_from(range(4))) == 1 and plen > 9:
+    if draw(st.sampled_from(range(5))) in (1, 3) and plen > 9:
         # one more member that CONTAINS members listed before (or after) it and reaches beyond the top
         up = draw(st.integers(1, 4))
         w2 = (1 << (32 - plen + up)) - 1
